@@ -32,7 +32,7 @@ type C17Case struct {
 func genC17(t *rapid.T) C17Case {
 	c := C17Case{Mode: rapid.SampledFrom([]string{"spoof", "badpeer", "reattach", "cancel"}).Draw(t, "mode"), Ser: rapid.Bool().Draw(t, "ser")}
 	c.Spoof = rapid.SampledFrom([]string{"other-source", "empty-source", "no-header", "unattached-source"}).Draw(t, "spoof")
-	c.Role = rapid.SampledFrom([]string{"stuck-writer", "failing-reader", "failing-writer", "dial-error", "slow-dial"}).Draw(t, "role")
+	c.Role = rapid.SampledFrom([]string{"stuck-writer", "failing-reader", "failing-writer", "dial-error", "slow-dial", "slow-failing-dial"}).Draw(t, "role")
 	c.OldFailsFirst = rapid.Bool().Draw(t, "old_first")
 	c.FailKind = rapid.SampledFrom([]string{"read", "write"}).Draw(t, "failkind")
 	c.Rounds = rapid.IntRange(1, 6).Draw(t, "rounds")
@@ -135,6 +135,10 @@ func execC17(t *testing.T, c C17Case) (v Verdict) {
 			case "slow-dial":
 				w.dialable["slow"] = true
 				_ = c0.A.Write(bg, pxEnv("c0", "slow", 500))
+			case "slow-failing-dial":
+				// the dial is still in progress when the proxy is cancelled, and fails afterwards
+				w.slowDial = make(chan struct{})
+				_ = c0.A.Write(bg, pxEnv("c0", "tarpit", 500))
 			}
 			honest("with " + c.Role)
 			kit.Settle()
@@ -222,6 +226,10 @@ func execC17(t *testing.T, c C17Case) (v Verdict) {
 			time.Sleep(time.Second)
 		}
 		finish()
+		if c.Mode == "badpeer" && c.Role == "slow-failing-dial" {
+			close(w.slowDial) // only now does the dial return (with an error)
+			kit.Settle()
+		}
 	})
 	if res.Panic != nil {
 		v.failf("panic: %v\n%s", res.Panic, res.Stack)
